@@ -1,6 +1,8 @@
 package masks
 
 import (
+	"strings"
+
 	"github.com/mennanov/fmutils"
 	"google.golang.org/grpc/codes"
 	"google.golang.org/grpc/status"
@@ -41,6 +43,13 @@ func (f *FieldUpdater) Validate(m proto.Message) error {
 			common := f.fullMask()
 			if len(common.Paths) != len(f.updateMask.Paths) {
 				return status.Errorf(codes.InvalidArgument, "%v mentions read-only fields", f.updateMaskFieldName)
+			}
+			// the count is fooled when one update path splits into several writable paths:
+			// writable {a.b, a.c} and update {a, x} give two common paths for two update paths
+			for _, p := range f.updateMask.Paths {
+				if !overlapsAny(p, f.writableFields.Paths) {
+					return status.Errorf(codes.InvalidArgument, "%v mentions read-only fields", f.updateMaskFieldName)
+				}
 			}
 		}
 	}
@@ -100,6 +109,16 @@ func (f *FieldUpdater) Merge(dst, src proto.Message) {
 	}
 
 	return
+}
+
+// overlapsAny reports whether path selects at least one field that one of paths selects too.
+func overlapsAny(path string, paths []string) bool {
+	for _, p := range paths {
+		if p == path || strings.HasPrefix(p, path+".") || strings.HasPrefix(path, p+".") {
+			return true
+		}
+	}
+	return false
 }
 
 func pruneEmpty(dst, src proto.Message, mask fmutils.NestedMask) {
